@@ -7,6 +7,28 @@ from .. import core, gen
 TLS = gen.TLS
 
 
+CYCLES = """
+dia.aaa l:(Maybe dia.left) r:(Maybe dia.right) = dia.Aaa;
+dia.left m:# t:m.0?dia.aaa = dia.Left;
+dia.right m:# t:m.0?dia.aaa = dia.Right;
+dib.top a:(Maybe dib.one) b:(Maybe dib.two) c:(Maybe dib.three) = dib.Top;
+dib.one m:# t:m.0?dib.base = dib.One;
+dib.two m:# t:m.1?dib.base = dib.Two;
+dib.three m:# t:m.2?dib.base u:m.3?dib.two = dib.Three;
+dib.base m:# back:m.0?dib.top = dib.Base;
+ring.a m:# n:m.0?ring.b = ring.A;
+ring.b m:# n:m.0?ring.c = ring.B;
+ring.c m:# n:m.0?ring.a = ring.C;
+xns.alpha m:# o:m.0?yns.beta p:m.1?zns.gamma = xns.Alpha;
+yns.beta m:# o:m.0?zns.gamma q:m.1?xns.alpha = yns.Beta;
+zns.gamma m:# o:m.0?xns.alpha r:m.1?yns.beta = zns.Gamma;
+self.node v:int kids:(vector self.node) = self.Node;
+---functions---
+@read dia.get x:dia.aaa = dib.Top;
+@read ring.get x:ring.a = xns.Alpha;
+"""
+
+
 def tree(root):
     if os.path.isfile(root):
         return {"<file>": core.sha(root)}
@@ -30,6 +52,19 @@ def run(ctx):
     os.makedirs(gm_dir)
     for f in gen.REPO_SETS["goldmaster"]:
         shutil.copy(os.path.join(ctx.scratch, f), gm_dir)
+    # crafted inputs: import cycles of several shapes (rings, diamonds: the merge order of --split-internal comes from map iteration), and two
+    # directories that hold files of the same name (the order of equal relative names must not come from the command line)
+    from .. import schemagen
+    cyc = os.path.join(ctx.work, "cycles.tl")
+    open(cyc, "w").write(schemagen.PRELUDE + CYCLES)
+    sets["cycles"] = [cyc]
+    sn = os.path.join(ctx.work, "samenames")
+    for d, ns in (("svcA", "sva"), ("svcB", "svb"), ("svcC", "svc")):
+        os.makedirs(os.path.join(sn, d, "api"))
+        open(os.path.join(sn, d, "common.tl"), "w").write("%s.item#%08x id:int name:string = %s.Item;\n%s.pair a:%s.item b:%s.item = %s.Pair;\n" % (ns, 0x51000000 + len(d) + ord(d[-1]), ns, ns, ns, ns, ns))
+        open(os.path.join(sn, d, "api", "functions.tl"), "w").write("---functions---\n@read %s.getItem id:int = %s.Item;\n@write %s.putPair p:%s.pair = Bool;\n" % (ns, ns, ns, ns))
+    open(os.path.join(sn, "prelude.tl"), "w").write(schemagen.PRELUDE)
+    sets["samenames"] = [os.path.join(sn, "prelude.tl"), os.path.join(sn, "svcA"), os.path.join(sn, "svcB"), os.path.join(sn, "svcC")]
     langs = ["go", "go-split", "php", "tlo", "canonical", "tljson.html", "cpp"]
     runs = 0
     for sname, files in sets.items():
@@ -37,6 +72,14 @@ def run(ctx):
         for lang in langs:
             outs = []
             variants = [(16, 0), (1, 1), (2, 2)] + ([(16, 3), (4, 4), (1, 5)] if thorough else [])
+            if sname == "cycles":
+                if lang not in ("go", "go-split", "tlo"):
+                    continue
+                variants = [(16, 0)] * (12 if thorough else 6) if lang == "go-split" else [(16, 0), (1, 0)]
+            if sname == "samenames":
+                if lang in ("php", "cpp", "tljson.html"):
+                    continue
+                variants = [(16, 0), (16, 1), (16, 2), (16, 3), (16, 4)]
             for vi, (gmp, perm) in enumerate(variants):
                 inputs = list(absfiles)
                 if perm:
@@ -90,6 +133,7 @@ def run(ctx):
     ctx.cov["rule"] = ("for each repository schema set x output kind (go, go --split-internal, php with bodies, tlo, canonical, tljson.html, cpp via tlgen for cases.tl): "
                        "3 (thorough 6) runs with GOMAXPROCS in {16,1,2,4}, the input files permuted/reversed and (goldmaster) given as a directory; explicit non-zero "
                        "--schemaTimestamp; complete output trees compared byte for byte (path + sha256) against run 0. Go's randomized map iteration is "
-                       "inherent to every run. distinct_nontrivial = distinct (schema, output kind, GOMAXPROCS, permutation) compared.")
+                       "inherent to every run. Crafted inputs: a schema of import cycles (diamonds, rings, across namespaces) generated 6 (12) times with --split-internal; three "
+                       "directories holding files of the same relative names given in 5 orders. distinct_nontrivial = distinct (schema, output kind, GOMAXPROCS, permutation) compared.")
     ctx.require("generator runs", runs, 30)
     ctx.require("compared runs", len(ctx._distinct), 20)
